@@ -49,6 +49,52 @@ static inline double avm_u2d(uint64_t u) { union { uint64_t u; double f; } c; c.
 static inline uint32_t avm_f2u(float f)  { union { uint32_t u; float f; } c; c.f = f; return c.u; }
 static inline uint64_t avm_d2u(double f) { union { uint64_t u; double f; } c; c.f = f; return c.u; }
 
+/* Integer division.  Default: the C operator (CBMC's division-by-zero / overflow checks apply).  With AVM_DIV_UF the
+ * divide instruction is an uninterpreted, functionally consistent operation with explicit definedness checks: used
+ * where a function merely routes operands to the hardware divider (a 32/64-bit divider circuit is beyond SAT even
+ * against an identical copy of itself); the spec functions switch with the same macro. */
+#if defined(AVM_DIV_UF) && !defined(AVM_NATIVE)
+uint32_t __CPROVER_uninterpreted_div_u32(uint32_t, uint32_t); uint32_t __CPROVER_uninterpreted_rem_u32(uint32_t, uint32_t);
+uint64_t __CPROVER_uninterpreted_div_u64(uint64_t, uint64_t); uint64_t __CPROVER_uninterpreted_rem_u64(uint64_t, uint64_t);
+int32_t __CPROVER_uninterpreted_div_i32(int32_t, int32_t); int32_t __CPROVER_uninterpreted_rem_i32(int32_t, int32_t);
+int64_t __CPROVER_uninterpreted_div_i64(int64_t, int64_t); int64_t __CPROVER_uninterpreted_rem_i64(int64_t, int64_t);
+#define AVM_DIVDEF(T, S, MINV, SG) \
+  static inline T AVM_DIV_##S(T a, T b) { __CPROVER_assert(b != 0, "division by zero"); \
+    if (SG) __CPROVER_assert(!(a == MINV && b == (T)-1), "signed division overflow (MIN / -1)"); return __CPROVER_uninterpreted_div_##S(a, b); } \
+  static inline T AVM_REM_##S(T a, T b) { __CPROVER_assert(b != 0, "division by zero"); \
+    if (SG) __CPROVER_assert(!(a == MINV && b == (T)-1), "signed division overflow (MIN % -1)"); return __CPROVER_uninterpreted_rem_##S(a, b); }
+AVM_DIVDEF(uint32_t, u32, 0, 0) AVM_DIVDEF(uint64_t, u64, 0, 0)
+AVM_DIVDEF(int32_t, i32, (-2147483647 - 1), 1) AVM_DIVDEF(int64_t, i64, (-9223372036854775807ll - 1), 1)
+#else
+#define AVM_DIV_u32(a, b) ((uint32_t)(a) / (uint32_t)(b))
+#define AVM_REM_u32(a, b) ((uint32_t)(a) % (uint32_t)(b))
+#define AVM_DIV_u64(a, b) ((uint64_t)(a) / (uint64_t)(b))
+#define AVM_REM_u64(a, b) ((uint64_t)(a) % (uint64_t)(b))
+#define AVM_DIV_i32(a, b) ((int32_t)(a) / (int32_t)(b))
+#define AVM_REM_i32(a, b) ((int32_t)(a) % (int32_t)(b))
+#define AVM_DIV_i64(a, b) ((int64_t)(a) / (int64_t)(b))
+#define AVM_REM_i64(a, b) ((int64_t)(a) % (int64_t)(b))
+#endif
+
+/* MXCSR apart from the rounding-control field, which lives in __CPROVER_rounding_mode (same encoding) */
+unsigned int model_mxcsr = 0x1f80u;
+
+/* IEEE square root: an uninterpreted (functionally consistent) symbol under CBMC -- what is proved is that each lane
+ * is routed to the square-root operation of the right operand; that the FPU's result is correctly rounded is assumed */
+#ifdef AVM_NATIVE
+#include <math.h>
+static inline float avm_sqrtf(float x) { return sqrtf(x); }
+static inline double avm_sqrt(double x) { return sqrt(x); }
+#else
+float __CPROVER_uninterpreted_sqrtf(float, int);
+double __CPROVER_uninterpreted_sqrt(double, int);
+static inline float avm_sqrtf(float x) { return __CPROVER_uninterpreted_sqrtf(x, __CPROVER_rounding_mode); }
+static inline double avm_sqrt(double x) { return __CPROVER_uninterpreted_sqrt(x, __CPROVER_rounding_mode); }
+#endif
+
+/* ghost: number of elements of the object handed to gather / scatter (set by the harness, read by the contract) */
+size_t avm_len;
+
 _Bool nondet_bool(void); uint8_t nondet_u8(void); uint16_t nondet_u16(void); uint32_t nondet_u32(void); uint64_t nondet_u64(void);
 int8_t nondet_i8(void); int16_t nondet_i16(void); int32_t nondet_i32(void); int64_t nondet_i64(void);
 float nondet_f32(void); double nondet_f64(void); size_t nondet_sz(void);
